@@ -233,8 +233,11 @@ func (g *gen) call(instr ssa.Instruction, c *ssa.CallCommon, pos token.Pos) Val 
 		}
 	}
 	if g.e.inRepo(callee) {
-		if ctr := g.e.ctrs[key]; ctr != nil {
+		if ctr := g.e.ctrs[key]; ctr != nil && !ctr.terminationOnly() {
 			return g.applyContractFn(ctr, key, callee, args, bindings, pos)
+		} else if ctr != nil {
+			// a contract that only names a measure: the call is otherwise treated like a call of an uncontracted function
+			g.decreasesObligation(ctr, key, callee, args, pos)
 		}
 		// no contract: inferred frame, unconstrained results
 		g.frameCheckKeys(g.e.modSetOf(callee), pos, callee.Name())
@@ -457,6 +460,44 @@ func (g *gen) applyContractFn(ctr *Contract, key string, callee *ssa.Function, a
 	return g.applyContractEnv(ctr, key, callee.Signature, env, callee, bindings, pos)
 }
 
+// terminationOnly: the contract says nothing but how the recursion ends
+func (c *Contract) terminationOnly() bool {
+	return (c.Decreases != nil || c.TerminatesBy != "") && len(c.Requires) == 0 && len(c.Ensures) == 0 && !c.HasAssign && len(c.Calls) == 0 && len(c.Loops) == 0 &&
+		!c.Pure && !c.Trusted && !c.Fresh && len(c.Emits) == 0 && len(c.Sets) == 0 && len(c.Abstracts) == 0 && !c.NoSafety && !c.AstValid && !c.DynCallsFrame
+}
+
+func (g *gen) decreasesObligation(ctr *Contract, key string, callee *ssa.Function, args []Val, pos token.Pos) {
+	if ctr.Decreases == nil || g.entryMeasure == "" || !g.e.sameCycle(g.fn, callee) {
+		return
+	}
+	env := g.specEnvHere()
+	env.calleeMode = true
+	env.fn = nil
+	if callee.Pkg != nil {
+		env.pkg = callee.Pkg.Pkg
+	}
+	for i, p := range callee.Params {
+		if i < len(args) {
+			a := args[i]
+			if a.Typ == nil {
+				a.Typ = p.Type()
+			}
+			env.vars[p.Name()] = a
+			env.vars[fmt.Sprintf("arg%d", i)] = a
+		}
+	}
+	short := key
+	if i := strings.LastIndex(short, "/"); i >= 0 {
+		short = short[i+1:]
+	}
+	m, err := g.evalSpec(env, ctr.Decreases.E)
+	if err != nil {
+		g.contractErr("call-"+short+"-decreases", "measure", err)
+		return
+	}
+	g.oblige("call/"+short+"/decreases", "recursive call on a smaller argument", and(app(">=", m.T, "0"), app("<", m.T, g.entryMeasure)), pos, nil)
+}
+
 func (g *gen) applyContract(ctr *Contract, key string, sig *types.Signature, recv Val, args []Val, bindings []Val, pos token.Pos) Val {
 	env := g.specEnvHere()
 	env.calleeMode = true
@@ -498,6 +539,14 @@ func (g *gen) applyContractEnv(ctr *Contract, key string, sig *types.Signature, 
 			continue
 		}
 		g.obligeAndAssume("call/"+short+"/pre", r.Label, t, pos)
+	}
+	// recursion: the callee's measure, taken on the arguments, is below the measure this function was entered with
+	if callee != nil && ctr.Decreases != nil && g.entryMeasure != "" && g.e.sameCycle(g.fn, callee) {
+		if m, err := g.evalSpec(env, ctr.Decreases.E); err != nil {
+			g.contractErr("call-"+short+"-decreases", "measure", err)
+		} else {
+			g.oblige("call/"+short+"/decreases", "recursive call on a smaller argument", and(app(">=", m.T, "0"), app("<", m.T, g.entryMeasure)), pos, nil)
+		}
 	}
 	pre := g.cur.clone()
 	// frame
